@@ -14,6 +14,17 @@ NOT_SHOWN = {
 
 
 def run(ctx, model_ok):
+    _run(ctx, model_ok)
+    # observers_as_positions (Props/C07): position arrays as observers = a Sensor at the origin holding them as pixel; the glue
+    # model (Model/Iface.lean) is tied by the iface stream
+    if ctx.driver_ok:
+        from corr import iface_family
+        ist = iface_family.run_stream(ctx, ctx.scale(150, 3000))
+        ist.pop("samples", None)
+        ctx.cov["correspondence_iface"] = ist
+
+
+def _run(ctx, model_ok):
     _level2.run(ctx, oracle.c04_sweep, {"03": 60, "04": 60, "05": 40, "06": 50}["04"], {"03": 2000, "04": 2000, "05": 1200, "06": 1500}["04"], NOT_SHOWN)
 
 
